@@ -16,6 +16,7 @@ import (
 	"reflect"
 	"regexp"
 	"slices"
+	"strings"
 	"time"
 )
 
@@ -255,7 +256,19 @@ func forType(t reflect.Type, seen map[reflect.Type]bool, ignore bool, schemas ma
 			if s.Properties == nil {
 				s.Properties = make(map[string]*Schema)
 			}
+			// Like encoding/json, treat an embedded struct with a JSON name in its tag
+			// as an ordinary field of that name (a nested object) whose fields are not
+			// promoted, and an embedded field of non-struct type as an ordinary field.
+			embeddedAsField := false
 			if field.Anonymous {
+				ft := field.Type
+				if ft.Kind() == reflect.Pointer {
+					ft = ft.Elem()
+				}
+				tagName, _, _ := strings.Cut(field.Tag.Get("json"), ",")
+				embeddedAsField = ft.Kind() != reflect.Struct || (tagName != "" && tagName != "-" && isValidTagName(tagName))
+			}
+			if field.Anonymous && !embeddedAsField {
 				override := schemas[field.Type]
 				if override != nil {
 					// Type must be object, and only properties can be set.
@@ -312,6 +325,16 @@ func forType(t reflect.Type, seen map[reflect.Type]bool, ignore bool, schemas ma
 					// Once we encounter a field that *isn't* promoted, we can stop
 					// checking.
 					skipPath = nil
+				}
+			}
+
+			if embeddedAsField {
+				// Skip the fields that Go promotes from it.
+				skipPath = field.Index
+				if field.Type.Kind() == reflect.Struct || (field.Type.Kind() == reflect.Pointer && field.Type.Elem().Kind() == reflect.Struct) {
+					// encoding/json does not ignore embedded fields of
+					// unexported struct types.
+					field.PkgPath = ""
 				}
 			}
 
